@@ -626,6 +626,14 @@ def check_plumbing(rep, repo, lmod, simmod, init):
         rep.violate('C01.plumbing', lmod, li, nb[0] if nb else 'nbytes', 'nbytes must be ceil(sims / 8) so that batch sizes that are not multiples of 8 fit', node=nb[0] if nb else li)
 
 
+def depends(rep, repo):
+    """Rules of the mechanisms this property's results rest on (schedule validity and memory map of SimOps): a change
+    that breaks them breaks this property too, so they are part of this check (rule ids keep their C07./C08. prefix)."""
+    from checks import c07, c08
+    c07.schedule_rules(rep, repo)
+    c08.map_rules(rep, repo)
+
+
 def thorough(rep, repo):
     """Thorough tier: the quick rules plus checker self-validation on the C01 slice of the mutation corpus."""
     from kvstatic import thorough as thorough_mod
